@@ -1,5 +1,13 @@
 use std::collections::VecDeque;
+#[cfg(tiny_http_verif)]
+use crate::verif_rt::{Condvar, Instant, Mutex};
+#[cfg(not(tiny_http_verif))]
 use std::sync::{Arc, Condvar, Mutex};
+#[cfg(tiny_http_verif)]
+use std::sync::Arc;
+#[cfg(tiny_http_verif)]
+use std::time::Duration;
+#[cfg(not(tiny_http_verif))]
 use std::time::{Duration, Instant};
 
 enum Control<T> {
